@@ -413,6 +413,10 @@ func (r *runner) build(ev event, committed *snap) []*built {
 			default:
 				panic(o.Kind)
 			}
+			if b.skip || b.spec == nil {
+				b.skip = true // degenerate in this state (e.g. a factory call without a deployed factory)
+				break
+			}
 			if gas > 0 {
 				b.spec.Fee.Gas = gas
 			}
